@@ -15,6 +15,9 @@ identifiers. The writers that iterate a hash map take the map as a *list in iter
 * `writeLayerTrait`: the trait API's `write_layer` (trait_api/handling.rs), which runs both loops on the data of a
   `LayerResult` (`env`, `exec_d_programs: HashMap`).
 
+* `writeBuildResultSboms` / `replaceLayerSbomFiles`: the SBOM files of a `BuildResult` / of a layer, written from a `Vec`
+  in the Vec's order (no hash container on that path; a Vec may hold several SBOMs of one format, the last one stays).
+
 The theorems (Props/C20) quantify over **every permutation** of those lists.
 `coveredIterSites` is the hand-written list of hash-iteration sites this model accounts for; the generated list
 `Gen.HashSites.iterSites` must be contained in it (obligation `iteration_sites_are_modelled`).
@@ -134,6 +137,43 @@ def XFs.toDir (fs : XFs) : Dir := fs.names.map (fun kv => (kv.1, fs.node kv.2))
 def XFs.nlink (fs : XFs) : XEnt → Nat
   | .ino k => (fs.names.filter (fun kv => kv.2 == .ino k)).length + (fs.outer.filter (· == k)).length
   | _ => 1
+
+/-! ### SBOM files: written from a `Vec<Sbom>` in the Vec's own order
+
+There is one file per (base name, format): `<layers>/<base>.sbom.<suffix of the format>` (`cnb_sbom_path`), base =
+`build` / `launch` for the SBOMs of a `BuildResult`, the layer name for a layer's. Nothing keeps a caller from putting
+several SBOMs of one format into the Vec (`BuildResultBuilder::build_sbom` / `launch_sbom`, `LayerResultBuilder::sbom`
+push, `LayerRef::write_sboms` takes a slice). The writers visit the Vec front to back and `fs::write` creates or
+truncates, so a later SBOM of a format replaces an earlier one. No hash-ordered container is involved:
+`BuildResultBuilder::build_unwrapped` moves the two Vecs into `InnerBuildResult::Pass` as they are (a hash iteration
+there would be a site of `Gen.HashSites.iterSites` that `coveredIterSites` does not list). -/
+
+/-- (base name, index of the format in `SBOM_FORMATS` / `Gen.Tables.sbomSuffixes`) -/
+abbrev SbomKey := String × Nat
+/-- the SBOM files of a layers directory -/
+abbrev SbomFiles := List (SbomKey × Bytes)
+
+/-- `fs::write(path, data)`: create or truncate -/
+def SbomFiles.write (fs : SbomFiles) (k : SbomKey) (b : Bytes) : SbomFiles :=
+  (k, b) :: fs.filter (fun kv => kv.1 != k)
+
+/-- `for sbom in sboms { fs::write(cnb_sbom_path(&sbom.format, layers_dir, base), &sbom.data)? }` -/
+def writeSbomVec (base : String) : SbomFiles → List (Nat × Bytes) → SbomFiles
+  | fs, [] => fs
+  | fs, (f, b) :: rest => writeSbomVec base (fs.write (base, f) b) rest
+
+/-- the tail of `libcnb_runtime_build` on `InnerBuildResult::Pass { build_sboms, launch_sboms, .. }`: the loop over
+`build_sboms`, then the loop over `launch_sboms` (runtime.rs), on the Vecs exactly as the builder received them -/
+def writeBuildResultSboms (fs : SbomFiles) (buildSboms launchSboms : List (Nat × Bytes)) : SbomFiles :=
+  writeSbomVec "launch" (writeSbomVec "build" fs buildSboms) launchSboms
+
+/-- `replace_layer_sboms` (layer/shared.rs; reached by `LayerRef::write_sboms` and by the trait API's
+`Sboms::Replace`): the file of every format is removed, then the slice is written front to back -/
+def replaceLayerSbomFiles (name : String) (fs : SbomFiles) (sboms : List (Nat × Bytes)) : SbomFiles :=
+  writeSbomVec name (fs.filter (fun kv => kv.1.1 != name)) sboms
+
+/-- the Vec seen as a registration sequence: which file each element is written to -/
+def sbomRegs (base : String) (sb : List (Nat × Bytes)) : List (SbomKey × Bytes) := sb.map (fun x => ((base, x.1), x.2))
 
 /-- what the model predicts for the comparison of two runs on identical inputs -/
 def pairObservation : String := "equal"
